@@ -316,10 +316,10 @@ impl VolatileState {
             final(self).users@ == old(self).users@.insert(sk(unick), user), // @prop C02,C19
             final(self).channels == old(self).channels && final(self).nick_histories == old(self).nick_histories // @prop C02
               && final(self).quit_sender == old(self).quit_sender && final(self).quit_receiver == old(self).quit_receiver,
-            sym(*final(self)), // @prop C04
+            sym(*final(self)), // @prop C04,C05
             chans_wf(*final(self)), // @prop C04,C08
             no_empty_chan(*final(self)), // @prop C16
-            wallops_wf(*final(self)), // @prop C11,C06
+            wallops_wf(*final(self)), // @prop C11,C06,C05
             counters_wf(*final(self)), // @prop C19
             senders_distinct(*final(self)), // @prop C02,C01
 //@open
@@ -360,10 +360,10 @@ impl VolatileState {
             !old(self).users@.contains_key(sk(nick)) ==> vs_same(*final(self), *old(self)), // @prop C06,C02
             final(self).max_users_count == old(self).max_users_count && final(self).quit_sender == old(self).quit_sender // @prop C06,C19
                 && final(self).quit_receiver == old(self).quit_receiver,
-            sym(*final(self)), // @prop C04
+            sym(*final(self)), // @prop C04,C05
             chans_wf(*final(self)), // @prop C04,C08
             no_empty_chan(*final(self)), // @prop C16
-            wallops_wf(*final(self)), // @prop C11,C06
+            wallops_wf(*final(self)), // @prop C11,C06,C05
             counters_wf(*final(self)), // @prop C19
             senders_distinct(*final(self)), // @prop C02,C01
 //@open
